@@ -6,6 +6,14 @@ Model: ArmiVerif/Model/XsLib.lean (transcribes IsotxsLibrary.merge and its calle
 statement incl. the partial mutation on failure; computeMacroscopicGroupConstants and the
 MacroscopicCrossSectionCreator over exact rationals).  Algebra + refinement lemmas:
 ArmiVerif/Lemmas/XsLib.lean.  This file: the property theorems.
+
+Continuation round (second half of the file): nuclide-order invariance and concatenation additivity of the computed
+arrays; multiplier library; block-average chi; createMacrosFromMicros as a whole (`creator_spec`, dict / sort /
+lookup semantics, linear / additive / zero defining sums); what a rejected merge can have touched
+(`merge_failure_frame`, `merge_properties_frame`), well-formedness of every reachable target (`merge_keeps_WF`,
+`mergeAll_WF`), the case where rejection IS atomic (`merge_failure_atomic_first_nuclide`); file-wide chi
+(`Lib.mergeChi`: conservative extension `mergeChi_eq_merge`, `mergeChi_fissile_have_own_chi`); the theorems' domain as an
+executable check (`WF_of_WFB`); the merge with rollback of the candidate fix (`mergeAtomic_rejected_unchanged`).
 -/
 import ArmiVerif.Model.XsLib
 import ArmiVerif.Lemmas.XsLib
@@ -1165,5 +1173,1037 @@ example : [gA, gB, gC].Perm [gC, gB, gA] :=
   (List.Perm.swap gB gA [gC]).trans ((List.Perm.cons gB (List.Perm.swap gC gA [])).trans (List.Perm.swap gC gB [gA]))
 example : (Lib.merge gA gB).1 = true ∧ (Lib.merge gB gA).1 = true := by decide
 example : (Lib.merge gA gA).1 = false := by decide
+
+/-! ## continuation round: nuclide order, concatenation, multiplier library, block-average chi, the creator as a whole -/
+
+private theorem sumR_perm {l₁ l₂ : List Rat} (h : l₁.Perm l₂) : sumR l₁ = sumR l₂ := by
+  induction h with
+  | nil => rfl
+  | cons x _ ih => simp [sumR, ih]
+  | swap x y l => simp only [sumR]; ring
+  | trans _ _ ih₁ ih₂ => rw [ih₁, ih₂]
+
+private theorem sumR_append (a b : List Rat) : sumR (a ++ b) = sumR a + sumR b := by
+  induction a with
+  | nil => simp [sumR]
+  | cons x xs ih => simp only [List.cons_append, sumR, ih]; ring
+
+/-- the defining sum does not depend on the order of the items -/
+theorem specAt_perm (g : Nat) {es₁ es₂ : List Entry} (h : es₁.Perm es₂) : specAt g es₁ = specAt g es₂ :=
+  sumR_perm (h.map _)
+
+/-- **invariance under nuclide order**: whatever the order in which the items of a composition are visited,
+the arrays the code returns agree group by group (the code sorts by name; nothing depends on that choice). -/
+theorem macro_order_invariant {es₁ es₂ : List Entry} (hp : es₁.Perm es₂) (v₁ v₂ : Vec)
+    (h₁ : macroXS es₁ = some (some v₁)) (h₂ : macroXS es₂ = some (some v₂)) : ∀ g, at' v₁ g = at' v₂ g := by
+  intro g
+  rw [macro_is_weighted_sum _ _ h₁ g, macro_is_weighted_sum _ _ h₂ g, specAt_perm g hp]
+
+/-- **additivity over concatenation of nuclide lists** for the computed arrays -/
+theorem macro_concat_additive (es₁ es₂ : List Entry) (v₁ v₂ v : Vec)
+    (h₁ : macroXS es₁ = some (some v₁)) (h₂ : macroXS es₂ = some (some v₂))
+    (h : macroXS (es₁ ++ es₂) = some (some v)) : ∀ g, at' v g = at' v₁ g + at' v₂ g := by
+  intro g
+  rw [macro_is_weighted_sum _ _ h g, macro_is_weighted_sum _ _ h₁ g, macro_is_weighted_sum _ _ h₂ g,
+    macro_additive_spec]
+
+/-- **with a multiplier library**: the result is the weighted sum over the items found in both libraries -/
+theorem macro_mult_is_weighted_sum (es : List (Entry × Bool)) (v : Vec) (h : macroXSMult es = some (some v)) :
+    ∀ g, at' v g = specAt g (dropMultMissing es) :=
+  macro_is_weighted_sum _ _ h
+
+/-- an item with non-zero density that `lib` lacks is refused whether or not `multLib` has it -/
+theorem macro_mult_missing_rejected (es : List (Entry × Bool)) (d : Rat) (b : Bool)
+    (hm : (Entry.missing d, b) ∈ es) (hd : d ≠ 0) : macroXSMult es = none := by
+  apply missing_nuclide_rejected _ d _ hd
+  unfold dropMultMissing
+  exact List.mem_map.mpr ⟨(Entry.missing d, b), List.mem_filter.mpr ⟨hm, by simp [Entry.isMissing]⟩, rfl⟩
+
+example : macroXSMult [(.present 1 (some [1, 2]) .one, true), (.present 1 (some [5, 5]) .one, false)]
+    = some (some [1, 2]) := by decide +kernel
+example : macroXS [.present 1 (some [1, 2]) .one, .present 2 (some [1, 0]) .one] = some (some [3, 2]) ∧
+    macroXS [.present 2 (some [1, 0]) .one, .present 1 (some [1, 2]) .one] = some (some [3, 2]) := by decide +kernel
+
+/-! ### block-average chi -/
+
+/-- F_n = Σ_g ν_g σ_f,g of one item (N_n, χ_n, ν_n, σ_f,n) -/
+def fisRate (it : Rat × Vec × Vec × Vec) : Rat := (vmul it.2.2.1 it.2.2.2).foldl (· + ·) 0
+
+/-- Σ_n N_n F_n -/
+def chiDen (items : List (Rat × Vec × Vec × Vec)) : Rat := sumR (items.map (fun it => it.1 * fisRate it))
+
+private theorem foldl_add_sumR (items : List (Rat × Vec × Vec × Vec)) : ∀ a : Rat,
+    items.foldl (fun acc it => acc + it.1 * fisRate it) a = a + chiDen items := by
+  induction items with
+  | nil => intro a; simp [chiDen, sumR]
+  | cons it its ih =>
+    intro a
+    simp only [List.foldl_cons, ih, chiDen, List.map_cons, sumR]; ring
+
+private theorem at_map_div (v : Vec) (d : Rat) (g : Nat) : at' (v.map (· / d)) g = at' v g / d := by
+  induction v generalizing g with
+  | nil => simp [at']
+  | cons x xs ih =>
+    cases g with
+    | zero => simp [at']
+    | succ g => have := ih g; simpa [at'] using this
+
+private theorem blockChi_unfold (ng : Nat) (items : List (Rat × Vec × Vec × Vec)) :
+    blockChi ng items =
+      if chiDen items ≠ 0 then
+        ((items.map (fun it => vscale (it.1 * fisRate it) it.2.1)).foldl vadd (vzero ng)).map (· / chiDen items)
+      else vzero ng := by
+  have hd : items.foldl (fun acc it => acc + it.1 * fisRate it) 0 = chiDen items := by
+    rw [foldl_add_sumR]; ring
+  unfold fisRate at hd
+  unfold blockChi
+  simp only [List.foldl_map]
+  rw [hd]
+  rfl
+
+/-- **block-average chi is the fission-source-weighted average of the nuclide spectra**:
+χ_g · Σ_n N_n F_n = Σ_n N_n F_n χ_n,g with F_n = Σ_g' ν_g' σ_f,g' (and zeros when no nuclide fissions). -/
+theorem block_chi_is_weighted_average (ng : Nat) (items : List (Rat × Vec × Vec × Vec))
+    (hl : ∀ it ∈ items, it.2.1.length = ng) (g : Nat) :
+    (chiDen items ≠ 0 → at' (blockChi ng items) g * chiDen items
+        = sumR (items.map (fun it => it.1 * fisRate it * at' it.2.1 g))) ∧
+    (chiDen items = 0 → at' (blockChi ng items) g = 0) := by
+  rw [blockChi_unfold]
+  constructor
+  · intro hd
+    simp only [hd, ne_eq, not_false_eq_true, if_true]
+    rw [at_map_div, foldl_vadd_at _ (vzero ng) (by
+      intro p hp
+      obtain ⟨it, hit, rfl⟩ := List.mem_map.mp hp
+      rw [len_vscale, len_vzero]; exact hl it hit) g, at_vzero]
+    rw [div_mul_cancel₀ _ hd, List.map_map]
+    simp only [zero_add]
+    congr 1
+    apply List.map_congr_left
+    intro it _
+    simp [at_vscale]
+  · intro hd
+    simp [hd, at_vzero]
+
+/-- block-average chi does not change when every number density is scaled by the same non-zero factor -/
+theorem block_chi_scale_invariant (ng : Nat) (c : Rat) (hc : c ≠ 0) (items : List (Rat × Vec × Vec × Vec))
+    (hl : ∀ it ∈ items, it.2.1.length = ng) (g : Nat) :
+    at' (blockChi ng (items.map (fun it => (c * it.1, it.2)))) g = at' (blockChi ng items) g := by
+  have hden : chiDen (items.map (fun it => (c * it.1, it.2))) = c * chiDen items := by
+    unfold chiDen
+    induction items with
+    | nil => simp [sumR]
+    | cons it its ih =>
+      have := ih (fun x hx => hl x (by simp [hx]))
+      simp only [List.map_cons, sumR, List.map_map] at this ⊢
+      rw [this]; simp only [fisRate]; ring
+  have hl' : ∀ it ∈ items.map (fun it => (c * it.1, it.2)), it.2.1.length = ng := by
+    intro it hit
+    obtain ⟨x, hx, rfl⟩ := List.mem_map.mp hit
+    exact hl x hx
+  obtain ⟨a1, a2⟩ := block_chi_is_weighted_average ng items hl g
+  obtain ⟨b1, b2⟩ := block_chi_is_weighted_average ng _ hl' g
+  by_cases hd : chiDen items = 0
+  · rw [a2 hd, b2 (by rw [hden, hd]; ring)]
+  · have hd' : chiDen (items.map (fun it => (c * it.1, it.2))) ≠ 0 := by rw [hden]; exact mul_ne_zero hc hd
+    have e1 := a1 hd
+    have e2 := b1 hd'
+    have hs : sumR ((items.map (fun it => (c * it.1, it.2))).map (fun it => it.1 * fisRate it * at' it.2.1 g))
+        = c * sumR (items.map (fun it => it.1 * fisRate it * at' it.2.1 g)) := by
+      clear e1 e2 a1 a2 b1 b2 hl' hden hd hd' hl
+      induction items with
+      | nil => simp [sumR]
+      | cons it its ih =>
+        simp only [List.map_cons, sumR, List.map_map] at ih ⊢
+        rw [ih]; simp only [fisRate]; ring
+    rw [hs, hden, ← e1] at e2
+    have : at' (blockChi ng (items.map (fun it => (c * it.1, it.2)))) g * (c * chiDen items)
+        = at' (blockChi ng items) g * (c * chiDen items) := by rw [e2]; ring
+    exact mul_right_cancel₀ (mul_ne_zero hc hd) this
+
+example : blockChi 2 [(2, [1/2, 1/2], [2, 2], [1, 0]), (1, [1, 0], [1, 1], [1, 1])] = [2/3, 1/3] := by decide +kernel
+example : blockChi 2 [(0, [1/2, 1/2], [2, 2], [1, 0])] = [0, 0] := by decide +kernel
+
+/-! ### the creator as a whole (`createMacrosFromMicros`) -/
+
+private theorem allSome_spec {β : Type} : ∀ (l : List (Option β)) (r : List β), allSome l = some r → l = r.map some := by
+  intro l
+  induction l with
+  | nil => intro r h; simp [allSome] at h; subst h; rfl
+  | cons x xs ih =>
+    intro r h
+    cases x with
+    | none => simp [allSome] at h
+    | some a =>
+      simp [allSome] at h
+      obtain ⟨r', hr', rfl⟩ := h
+      simp [ih r' hr']
+
+private theorem needVec_spec (ng : Nat) (x : Option (Option Vec)) (v : Vec) (h : needVec ng x = some v) :
+    x = some (some v) ∧ v.length = ng := by
+  unfold needVec at h
+  split at h
+  · split at h
+    · injection h with h; subst h; exact ⟨rfl, by assumption⟩
+    · simp at h
+  · simp at h
+
+private theorem basics_map (ng : Nat) (lib : List (Nat × MNuc)) (dens : List (Nat × Rat)) (g : Nat) :
+    ∀ (l : List Nat) (basics : List Vec),
+    l.map (fun i => needVec ng (macroXS (entriesOf lib i false dens))) = basics.map some →
+    basics.map (fun p => at' p g) = l.map (fun i => specAt g (entriesOf lib i false dens)) ∧
+      ∀ p ∈ basics, p.length = ng := by
+  intro l
+  induction l with
+  | nil => intro basics h; cases basics <;> simp_all
+  | cons i is ih =>
+    intro basics h
+    cases basics with
+    | nil => simp at h
+    | cons v vs =>
+      simp only [List.map_cons, List.cons.injEq] at h
+      obtain ⟨hv, hrest⟩ := h
+      obtain ⟨e, hl⟩ := needVec_spec _ _ _ hv
+      obtain ⟨i1, i2⟩ := ih vs hrest
+      refine ⟨?_, ?_⟩
+      · simp only [List.map_cons, i1, macro_is_weighted_sum _ _ e g]
+      · intro p hp
+        rcases List.mem_cons.mp hp with rfl | hp
+        · exact hl
+        · exact i2 p hp
+
+/-- the effective composition of the creator: the sorted items of `dict(filter(> minDens, zip(nucNames, dens)))` -/
+def effComposition (minD : Rat) (items : List (Nat × Rat)) : List (Nat × Rat) := sortedItems (mkDensities minD items)
+
+/-- **The macroscopic set built by `createMacrosFromMicros` is, reaction by reaction, the density-weighted sum over
+the block's effective composition, and its derived quantities are their defining sums**: every basic reaction i
+(nGamma, nalph, np, nd, nt, fission, n2n) is Σ_n N_n σ_i,n; ν·Σ_f is Σ_n N_n ν_n σ_f,n; absorption is the sum of the
+seven reactions, hence Σ_n N_n Σ_i σ_i,n; total scatter and removal are `totalScatter` / `removal` of the returned
+parts (see `derived_total_scatter`, `derived_removal`, `macro_scatter_is_weighted_sum`). -/
+theorem creator_spec (ng : Nat) (minD : Rat) (b : Bool) (items : List (Nat × Rat)) (lib : List (Nat × MNuc))
+    (out : COut) (h : creator ng minD b items lib = some out) :
+    out.basics.length = 7 ∧
+    (∀ i, i < 7 → (out.basics.getD i []).length = ng ∧
+      ∀ g, at' (out.basics.getD i []) g = specAt g (entriesOf lib i false (effComposition minD items))) ∧
+    (∀ g, at' out.nuSigF g = specAt g (entriesOf lib 5 true (effComposition minD items))) ∧
+    (∀ g, at' out.absorption g
+      = sumR ((List.range 7).map (fun i => specAt g (entriesOf lib i false (effComposition minD items))))) ∧
+    out.totalScatter = totalScatter out.el out.inel out.n2nS ∧
+    out.removal = removal ng out.absorption (out.basics.getD 6 []) out.totalScatter ∧
+    (b = true → out.el = scatterMacro ng (lib.map (fun p => (dictGet (mkDensities minD items) p.1 0, p.2.el)))) := by
+  unfold creator at h
+  simp only at h
+  split at h
+  · rename_i nuSigF basics total transport h1 h2 h3 h4
+    injection h with h; subst h
+    have hb := allSome_spec _ _ h2
+    obtain ⟨e1, _⟩ := needVec_spec _ _ _ h1
+    have hlen : basics.length = 7 := by
+      have := congrArg List.length hb
+      simpa using this.symm
+    refine ⟨hlen, ?_, ?_, ?_, rfl, rfl, ?_⟩
+    · intro i hi
+      have hi' : i < basics.length := by omega
+      have := congrArg (fun l => l[i]?) hb
+      simp only [List.getElem?_map, List.getElem?_range hi, Option.map_some,
+        List.getElem?_eq_getElem hi'] at this
+      injection this with this
+      obtain ⟨e, hl⟩ := needVec_spec _ _ _ this
+      have hg : basics.getD i [] = basics[i] := by simp [List.getD, List.getElem?_eq_getElem hi']
+      simp only [hg]
+      exact ⟨hl, fun g => macro_is_weighted_sum _ _ e g⟩
+    · intro g; exact macro_is_weighted_sum _ _ e1 g
+    · intro g
+      obtain ⟨m1, m2⟩ := basics_map ng lib _ g _ basics hb
+      show at' (absorption ng basics) g = _
+      rw [derived_absorption ng basics m2 g, m1]
+      rfl
+    · intro hb'; simp [hb']
+  · simp at h
+
+private theorem insertItem_perm (p : Nat × Rat) : ∀ l, (insertItem p l).Perm (p :: l) := by
+  intro l
+  induction l with
+  | nil => exact List.Perm.refl _
+  | cons q qs ih =>
+    by_cases h : p.1 ≤ q.1
+    · simp [insertItem, h]
+    · simp only [insertItem, h, if_false]
+      exact (List.Perm.cons q ih).trans (List.Perm.swap p q qs)
+
+theorem sortedItems_perm (d : List (Nat × Rat)) : (sortedItems d).Perm d := by
+  induction d with
+  | nil => exact List.Perm.refl _
+  | cons p ps ih => exact (insertItem_perm p _).trans (List.Perm.cons p ih)
+
+/-- sorting the composition by name (`sorted(numberDensities.items())`) has no influence on any defining sum -/
+theorem creator_sort_irrelevant (g : Nat) (lib : List (Nat × MNuc)) (i : Nat) (w : Bool) (d : List (Nat × Rat)) :
+    specAt g (entriesOf lib i w (sortedItems d)) = specAt g (entriesOf lib i w d) := by
+  apply specAt_perm
+  unfold entriesOf
+  exact (sortedItems_perm d).map _
+
+private theorem dictGet_dictSet (d : List (Nat × Rat)) (k : Nat) (v : Rat) (k' : Nat) (dflt : Rat) :
+    dictGet (dictSet d k v) k' dflt = if k = k' then v else dictGet d k' dflt := by
+  induction d with
+  | nil => simp [dictSet, dictGet]
+  | cons p ps ih =>
+    obtain ⟨a, b⟩ := p
+    by_cases h : a = k
+    · subst h; by_cases h' : a = k' <;> simp [dictSet, dictGet, h']
+    · by_cases h' : a = k'
+      · subst h'; simp [dictSet, dictGet, h]; intro hk; exact absurd hk.symm h
+      · simp [dictSet, dictGet, h, h', ih]
+
+private theorem dictGet_foldl (l : List (Nat × Rat)) : ∀ (d : List (Nat × Rat)) (k : Nat) (dflt : Rat),
+    dictGet (l.foldl (fun d p => dictSet d p.1 p.2) d) k dflt
+      = match l.reverse.find? (fun p => p.1 = k) with
+        | some p => p.2
+        | none => dictGet d k dflt := by
+  induction l with
+  | nil => intro d k dflt; simp
+  | cons p ps ih =>
+    intro d k dflt
+    simp only [List.foldl_cons, ih, List.reverse_cons, List.find?_append]
+    cases hf : ps.reverse.find? (fun p => decide (p.1 = k)) with
+    | some q => simp
+    | none =>
+      by_cases hk : p.1 = k
+      · simp [hk, dictGet_dictSet]
+      · simp [hk, dictGet_dictSet]
+
+/-- **the density a nuclide enters the macroscopic sums with** is that of the LAST entry of `nucNames` carrying its
+name whose density exceeds `minimumNuclideDensity`, and 0 if there is none (Python dict semantics). -/
+theorem mkDensities_get (minD : Rat) (items : List (Nat × Rat)) (k : Nat) :
+    dictGet (mkDensities minD items) k 0
+      = match (items.filter (fun p => decide (p.2 > minD))).reverse.find? (fun p => p.1 = k) with
+        | some p => p.2
+        | none => 0 := by
+  unfold mkDensities
+  rw [dictGet_foldl]
+  rfl
+
+private def mn (a b : Vec) (nu : Vec) (m : Option Mat) : MNuc :=
+  ⟨[some a, some [0, 0], some [0, 0], some [0, 0], some [0, 0], some b, some [0, 0], some [1, 1], some [2, 2]], some nu, m, none, none⟩
+
+example : (creator 2 0 true [(3, 1/2), (1, 2), (3, 1)] [(1, mn [1, 1] [1, 2] [2, 2] (some [[1, 1], [0, 1]])),
+    (3, mn [1, 0] [0, 0] [0, 0] none)]).map (fun o => (o.absorption, o.removal, o.nuSigF))
+    = some ([5, 6], [5, 8], [4, 8]) := by decide +kernel
+example : creator 2 0 true [(1, 0)] [(1, mn [1, 1] [1, 2] [2, 2] none)] = none := by decide +kernel
+example : creator 2 0 true [(1, 1), (7, 1)] [(1, mn [1, 1] [1, 2] [2, 2] none)] = none := by decide +kernel
+example : dictGet (mkDensities (1/4) [(3, 1/2), (1, 2), (3, 1), (1, 1/8)]) 3 0 = 1 ∧
+    dictGet (mkDensities (1/4) [(3, 1/2), (1, 2), (3, 1), (1, 1/8)]) 1 0 = 2 := by decide +kernel
+
+/-! ## continuation round: merging after a rejected merge -/
+
+private theorem mergeAttrs_length : ∀ (a b : List (Option Val)), (mergeAttrs a b).2.length = a.length := by
+  intro a
+  induction a with
+  | nil => intro b; cases b <;> simp [mergeAttrs]
+  | cons x xs ih =>
+    intro b
+    cases b with
+    | nil => simp [mergeAttrs]
+    | cons y ys =>
+      cases x <;> cases y <;> simp [mergeAttrs, ih]
+
+private theorem Nuc.merge_attrs_length (t o : Nuc) : (Nuc.merge t o).2.attrs.length = t.attrs.length := by
+  unfold Nuc.merge
+  split
+  · rfl
+  · simp only []
+    split
+    · rfl
+    · split
+      · rfl
+      · split
+        · rfl
+        · split
+          · rfl
+          · simp [mergeAttrs_length]
+
+/-- labels unique and five production / heating attributes on every nuclide (membership form) -/
+private def InvN (m : Nucs) : Prop := (Nucs.labels m).Nodup ∧ ∀ p ∈ m, p.2.attrs.length = 5
+
+private theorem find_mem : ∀ (m : Nucs) (l : Label) (n : Nuc), Nucs.find m l = some n → (l, n) ∈ m := by
+  intro m
+  induction m with
+  | nil => intro l n h; simp [Nucs.find] at h
+  | cons p ps ih =>
+    intro l n h
+    obtain ⟨a, b⟩ := p
+    by_cases hk : a = l
+    · simp [Nucs.find, hk] at h; subst h; subst hk; simp
+    · simp [Nucs.find, hk] at h; exact List.mem_cons_of_mem _ (ih l n h)
+
+private theorem mem_find_of_nodup : ∀ (m : Nucs), (Nucs.labels m).Nodup → ∀ p ∈ m, Nucs.find m p.1 = some p.2 := by
+  intro m
+  induction m with
+  | nil => intro _ p hp; simp at hp
+  | cons q qs ih =>
+    intro hnd p hp
+    obtain ⟨a, b⟩ := q
+    simp only [Nucs.labels, List.map_cons, List.nodup_cons] at hnd
+    rcases List.mem_cons.mp hp with rfl | hp
+    · simp [Nucs.find]
+    · have hne : a ≠ p.1 := by
+        intro e; apply hnd.1; rw [e]; exact List.mem_map.mpr ⟨p, hp, rfl⟩
+      simp only [Nucs.find, hne, if_false]
+      exact ih hnd.2 p hp
+
+private theorem mem_replace : ∀ (m : Nucs) (l : Label) (x : Nuc) (p : Label × Nuc),
+    p ∈ Nucs.replace m l x → p ∈ m ∨ p = (l, x) := by
+  intro m
+  induction m with
+  | nil => intro l x p h; simp [Nucs.replace] at h
+  | cons q qs ih =>
+    intro l x p h
+    obtain ⟨a, b⟩ := q
+    by_cases hk : a = l
+    · simp only [Nucs.replace, hk, if_true] at h
+      rcases List.mem_cons.mp h with rfl | h
+      · exact Or.inr rfl
+      · exact Or.inl (List.mem_cons_of_mem _ h)
+    · simp only [Nucs.replace, hk, if_false] at h
+      rcases List.mem_cons.mp h with rfl | h
+      · exact Or.inl (by simp)
+      · rcases ih l x p h with h | h
+        · exact Or.inl (List.mem_cons_of_mem _ h)
+        · exact Or.inr h
+
+private theorem mergeNucs_inv : ∀ (o t : Nucs), InvN t → (∀ p ∈ o, p.2.attrs.length = 5) → InvN (mergeNucs t o).2 := by
+  intro o
+  induction o with
+  | nil => intro t ht _; simpa [mergeNucs] using ht
+  | cons q rest ih =>
+    intro t ht ho
+    obtain ⟨l, n⟩ := q
+    have ho' : ∀ p ∈ rest, p.2.attrs.length = 5 := fun p hp => ho p (List.mem_cons_of_mem _ hp)
+    cases hf : Nucs.find t l with
+    | some tn =>
+      have hrep : InvN (Nucs.replace t l (Nuc.merge tn n).2) := by
+        refine ⟨by rw [Nucs.labels_replace]; exact ht.1, ?_⟩
+        intro p hp
+        rcases mem_replace _ _ _ _ hp with hp | rfl
+        · exact ht.2 p hp
+        · show (Nuc.merge tn n).2.attrs.length = 5
+          rw [Nuc.merge_attrs_length]; exact ht.2 (l, tn) (find_mem _ _ _ hf)
+      by_cases hr : (Nuc.merge tn n).1 = true
+      · simp only [mergeNucs, hf, hr, if_true]; exact ih _ hrep ho'
+      · simp only [mergeNucs, hf, hr]; exact hrep
+    | none =>
+      have happ : InvN (t ++ [(l, n)]) := by
+        refine ⟨?_, ?_⟩
+        · have hnl : l ∉ Nucs.labels t := (Nucs.find_none_iff t l).mp hf
+          simp only [Nucs.labels, List.map_append, List.map_cons, List.map_nil]
+          rw [List.nodup_append]
+          refine ⟨ht.1, by simp, ?_⟩
+          intro a ha b hb
+          simp at hb; subst hb
+          intro e; subst e; exact hnl ha
+        · intro p hp
+          rcases List.mem_append.mp hp with hp | hp
+          · exact ht.2 p hp
+          · simp at hp; subst hp; exact ho (l, n) (by simp)
+      simp only [mergeNucs, hf]; exact ih _ happ ho'
+
+/-- what a (possibly rejected) nuclide merge can touch: the target's labels stay, in order, as a prefix, and every
+nuclide whose label the other library does not carry is untouched. -/
+private theorem mergeNucs_frame : ∀ (o t : Nucs),
+    (∃ ext, Nucs.labels (mergeNucs t o).2 = Nucs.labels t ++ ext) ∧
+    (∀ lab, lab ∉ Nucs.labels o → Nucs.find (mergeNucs t o).2 lab = Nucs.find t lab) := by
+  intro o
+  induction o with
+  | nil => intro t; exact ⟨⟨[], by simp [mergeNucs]⟩, fun _ _ => rfl⟩
+  | cons q rest ih =>
+    intro t
+    obtain ⟨l, n⟩ := q
+    have hlab : ∀ lab, lab ∉ Nucs.labels ((l, n) :: rest) → lab ≠ l ∧ lab ∉ Nucs.labels rest := by
+      intro lab h
+      simp only [Nucs.labels, List.map_cons, List.mem_cons, not_or] at h
+      exact ⟨h.1, h.2⟩
+    cases hf : Nucs.find t l with
+    | some tn =>
+      have hfr : ∀ lab, lab ≠ l → Nucs.find (Nucs.replace t l (Nuc.merge tn n).2) lab = Nucs.find t lab := by
+        intro lab hne
+        rw [Nucs.find_replace]; simp [hne]
+      by_cases hr : (Nuc.merge tn n).1 = true
+      · simp only [mergeNucs, hf, hr, if_true]
+        obtain ⟨⟨ext, he⟩, i2⟩ := ih (Nucs.replace t l (Nuc.merge tn n).2)
+        refine ⟨⟨ext, by rw [he, Nucs.labels_replace]⟩, ?_⟩
+        intro lab h
+        obtain ⟨h1, h2⟩ := hlab lab h
+        rw [i2 lab h2, hfr lab h1]
+      · simp only [mergeNucs, hf, hr]
+        refine ⟨⟨[], by simp [Nucs.labels_replace]⟩, ?_⟩
+        intro lab h
+        exact hfr lab (hlab lab h).1
+    | none =>
+      simp only [mergeNucs, hf]
+      obtain ⟨⟨ext, he⟩, i2⟩ := ih (t ++ [(l, n)])
+      refine ⟨⟨l :: ext, by rw [he]; simp [Nucs.labels]⟩, ?_⟩
+      intro lab h
+      obtain ⟨h1, h2⟩ := hlab lab h
+      rw [i2 lab h2, Nucs.find_append]
+      cases Nucs.find t lab with
+      | some x => rfl
+      | none => simp [Nucs.find, Ne.symm h1, oor]
+
+private theorem mergeProperties_nucs (t o : Lib) : (Lib.mergeProperties t o).2.nucs = t.nucs := by
+  simp only [Lib.mergeProperties]
+  repeat' split
+  all_goals simp
+
+private theorem merge_nucs_cases (t o : Lib) :
+    (Lib.merge t o).2.nucs = t.nucs ∨ (Lib.merge t o).2.nucs = (mergeNucs t.nucs o.nucs).2 := by
+  have hp := mergeProperties_nucs t o
+  unfold Lib.merge
+  simp only
+  repeat' split
+  all_goals first
+    | (left; exact hp)
+    | (right; simp [hp])
+
+/-- **What a rejected merge can have touched** (the known findings, bounded): the three metadata blocks are the
+target's; every label of the target is still there, in the same order, possibly followed by labels taken over from the
+other library; and every nuclide whose label the other library does not carry is exactly what it was. -/
+theorem merge_failure_frame (t o : Lib) (h : (Lib.merge t o).1 = false) :
+    ((Lib.merge t o).2.isoMeta = t.isoMeta ∧ (Lib.merge t o).2.pmMeta = t.pmMeta ∧
+      (Lib.merge t o).2.gamMeta = t.gamMeta) ∧
+    (∃ ext, Nucs.labels (Lib.merge t o).2.nucs = Nucs.labels t.nucs ++ ext) ∧
+    (∀ lab, lab ∉ Nucs.labels o.nucs → Nucs.find (Lib.merge t o).2.nucs lab = Nucs.find t.nucs lab) := by
+  refine ⟨merge_failure_keeps_metadata t o h, ?_, ?_⟩
+  · rcases merge_nucs_cases t o with e | e
+    · exact ⟨[], by rw [e]; simp⟩
+    · rw [e]; exact (mergeNucs_frame o.nucs t.nucs).1
+  · intro lab hl
+    rcases merge_nucs_cases t o with e | e
+    · rw [e]
+    · rw [e]; exact (mergeNucs_frame o.nucs t.nucs).2 lab hl
+
+/-- **The target stays inside the domain of every merge theorem whatever the outcome of a merge**: after an accepted
+merge AND after a rejected one (with its partial mutations) the target is well formed, so union / identity / order
+independence / rejection apply to any later merge into it. -/
+theorem merge_keeps_WF (t o : Lib) (wt : t.WF) (wo : o.WF) : (Lib.merge t o).2.WF := by
+  by_cases hm : (Lib.merge t o).1 = true
+  · obtain ⟨m1, m2⟩ := merge_iff t o wt wo
+    rw [m2 hm]
+    exact WF_of_wf (libAlg_laws.wf_join (wf_of_WF wt) (wf_of_WF wo) (m1.mp hm))
+  · have hf : (Lib.merge t o).1 = false := by simpa using hm
+    obtain ⟨e1, e2, e3⟩ := merge_failure_keeps_metadata t o hf
+    have it : InvN t.nucs := ⟨wt.2.2.2.1, fun p hp => wt.2.2.2.2 p.1 p.2 (mem_find_of_nodup _ wt.2.2.2.1 p hp)⟩
+    have io : ∀ p ∈ o.nucs, p.2.attrs.length = 5 :=
+      fun p hp => wo.2.2.2.2 p.1 p.2 (mem_find_of_nodup _ wo.2.2.2.1 p hp)
+    have inv : InvN (Lib.merge t o).2.nucs := by
+      rcases merge_nucs_cases t o with e | e
+      · rw [e]; exact it
+      · rw [e]; exact mergeNucs_inv _ _ it io
+    refine ⟨by rw [e1]; exact wt.1, by rw [e2]; exact wt.2.1, by rw [e3]; exact wt.2.2.1, inv.1, ?_⟩
+    intro lab n hn
+    exact inv.2 (lab, n) (find_mem _ _ _ hn)
+
+/-- every state reachable by any sequence of merge attempts (accepted or rejected) from a well-formed target is
+well formed -/
+theorem mergeAll_WF : ∀ (os : List Lib) (t : Lib), t.WF → (∀ o ∈ os, o.WF) → (mergeAll t os).2.WF := by
+  intro os
+  induction os with
+  | nil => intro t wt _; exact wt
+  | cons o os ih =>
+    intro t wt wo
+    simp only [mergeAll]
+    exact ih _ (merge_keeps_WF t o wt (wo o (by simp))) (fun x hx => wo x (by simp [hx]))
+
+/-- as long as nothing is rejected, going on after failures is the plain merge sequence -/
+theorem mergeAll_eq_mergeSeq : ∀ (os : List Lib) (t : Lib), (mergeAll t os).1.all id = true →
+    (mergeSeq t os).2 = (true, (mergeAll t os).2) := by
+  intro os
+  induction os with
+  | nil => intro t _; rfl
+  | cons o os ih =>
+    intro t h
+    simp only [mergeAll, List.all_cons, id, Bool.and_eq_true] at h
+    simp only [mergeSeq, mergeAll, h.1, if_true]
+    exact ih _ h.2
+
+/-- a library merged after a rejected one: the rejected `gA` (duplicate) leaves the target usable, `gC` still merges -/
+example : (mergeAll Lib.empty [gA, gA, gC]).1 = [true, false, true] ∧
+    Nucs.labels (mergeAll Lib.empty [gA, gA, gC]).2.nucs = [10, 30] := by decide
+
+/-! ## continuation round: file-wide chi inside the model -/
+
+private theorem dropsChi_false_of_chiFree (a b : FileMeta) (ha : a.chiFree = true) (hb : b.chiFree = true) :
+    FileMeta.dropsChi a b = false := by
+  unfold FileMeta.chiFree at ha hb
+  unfold FileMeta.dropsChi
+  cases h1 : Meta.get a.data keyChi <;> cases h2 : Meta.get b.data keyChi <;> simp_all
+
+private theorem FileMeta.mergeChi_eq_merge (a b : FileMeta) (ha : a.chiFree = true) (hb : b.chiFree = true) :
+    FileMeta.mergeChi a b = FileMeta.merge a b := by
+  unfold FileMeta.chiFree at ha hb
+  unfold FileMeta.mergeChi FileMeta.merge
+  cases h1 : Meta.get a.data keyChi <;> cases h2 : Meta.get b.data keyChi <;> simp_all
+
+private theorem mergeProperties_metas (t o : Lib) :
+    (Lib.mergeProperties t o).2.isoMeta = t.isoMeta ∧ (Lib.mergeProperties t o).2.pmMeta = t.pmMeta ∧
+      (Lib.mergeProperties t o).2.gamMeta = t.gamMeta := by
+  simp only [Lib.mergeProperties]
+  repeat' split
+  all_goals simp
+
+/-- **The file-wide-chi layer is a conservative extension**: on libraries without a file-wide chi (the domain of the
+order-independence / union / identity theorems) `Lib.mergeChi` — the transcription with the chiFlag side effect — is
+`Lib.merge`. -/
+theorem mergeChi_eq_merge (t o : Lib) (ht : t.inDomain = true) (ho : o.inDomain = true) :
+    Lib.mergeChi t o = Lib.merge t o := by
+  obtain ⟨e1, e2, e3⟩ := mergeProperties_metas t o
+  simp only [Lib.inDomain, Bool.and_eq_true] at ht ho
+  obtain ⟨⟨t1, t2⟩, t3⟩ := ht
+  obtain ⟨⟨o1, o2⟩, o3⟩ := ho
+  rw [← e1] at t1; rw [← e2] at t2; rw [← e3] at t3
+  unfold Lib.mergeChi Lib.merge Lib.mergeChi1 Lib.mergeChi2 Lib.mergeChi3 Lib.finishMerge condRewrite
+  simp only [dropsChi_false_of_chiFree _ _ t1 o1, dropsChi_false_of_chiFree _ _ t2 o2,
+    dropsChi_false_of_chiFree _ _ t3 o3, FileMeta.mergeChi_eq_merge _ _ t1 o1, FileMeta.mergeChi_eq_merge _ _ t2 o2,
+    FileMeta.mergeChi_eq_merge _ _ t3 o3, Bool.false_eq_true, if_false]
+
+private theorem Meta.get_set (m : Meta) (k : Key) (v : Val) (k' : Key) :
+    Meta.get (Meta.set m k v) k' = if k = k' then some v else Meta.get m k' := by
+  induction m with
+  | nil => simp [Meta.set, Meta.get]
+  | cons p ps ih =>
+    obtain ⟨a, b⟩ := p
+    by_cases h : a = k
+    · subst h; by_cases h' : a = k' <;> simp [Meta.set, Meta.get, h']
+    · by_cases h' : a = k'
+      · subst h'; simp [Meta.set, Meta.get, h]; intro hk; exact absurd hk.symm h
+      · simp [Meta.set, Meta.get, h, h', ih]
+
+/-- a fissile nuclide (fisFlag = 1) carries its own chi (chiFlag = 1) -/
+def OwnChi (m : Meta) : Prop := Meta.get m keyFisFlag = some valOne → Meta.get m keyChiFlag = some valOne
+
+private theorem ownChi_rewrite (n : Nuc) : OwnChi n.chiRewrite.iso := by
+  unfold Nuc.chiRewrite
+  by_cases h : Meta.get n.iso keyFisFlag = some valOne
+  · simp only [h, if_true]
+    intro _
+    rw [Meta.get_set]; simp
+  · simp only [h, if_false]
+    intro h'; exact absurd h' h
+
+private def AllOwn (ns : Nucs) : Prop := ∀ p ∈ ns, OwnChi p.2.iso
+
+private theorem allOwn_rewrite (ns : Nucs) : AllOwn ns.chiRewrite := by
+  intro p hp
+  simp only [Nucs.chiRewrite, List.mem_map] at hp
+  obtain ⟨q, _, rfl⟩ := hp
+  exact ownChi_rewrite q.2
+
+private theorem allOwn_rewrite_of (ns : Nucs) (h : AllOwn ns) (c : Bool) :
+    AllOwn (if c = true then ns.chiRewrite else ns) := by
+  cases c
+  · simpa using h
+  · simpa using allOwn_rewrite ns
+
+private theorem ownChi_nuc_merge (t o : Nuc) (ht : OwnChi t.iso) (ho : OwnChi o.iso) : OwnChi (Nuc.merge t o).2.iso := by
+  cases hm : Meta.merge [] t.iso o.iso with
+  | none => simp [Nuc.merge, hm]; exact ht
+  | some m1 =>
+    have hj := (Meta.merge_nil_skip_ok _ _ _ hm).2
+    have hq : OwnChi m1 := by
+      rw [hj]; simp only [metaAlg]
+      by_cases he : t.iso = [] <;> simp [he] <;> assumption
+    have : (Nuc.merge t o).2.iso = m1 := by
+      unfold Nuc.merge
+      simp only [hm]
+      repeat' split
+      all_goals rfl
+    rw [this]; exact hq
+
+private theorem allOwn_mergeNucs : ∀ (o t : Nucs), AllOwn t → AllOwn o → AllOwn (mergeNucs t o).2 := by
+  intro o
+  induction o with
+  | nil => intro t ht _; simpa [mergeNucs] using ht
+  | cons q rest ih =>
+    intro t ht ho
+    obtain ⟨l, n⟩ := q
+    have ho' : AllOwn rest := fun p hp => ho p (List.mem_cons_of_mem _ hp)
+    have hn : OwnChi n.iso := ho (l, n) (by simp)
+    cases hf : Nucs.find t l with
+    | some tn =>
+      have hrep : AllOwn (Nucs.replace t l (Nuc.merge tn n).2) := by
+        intro p hp
+        rcases mem_replace _ _ _ _ hp with hp | rfl
+        · exact ht p hp
+        · exact ownChi_nuc_merge tn n (ht (l, tn) (find_mem _ _ _ hf)) hn
+      by_cases hr : (Nuc.merge tn n).1 = true
+      · simp only [mergeNucs, hf, hr, if_true]; exact ih _ hrep ho'
+      · simp only [mergeNucs, hf, hr]; exact hrep
+    | none =>
+      simp only [mergeNucs, hf]
+      apply ih _ _ ho'
+      intro p hp
+      rcases List.mem_append.mp hp with hp | hp
+      · exact ht p hp
+      · simp at hp; subst hp; exact hn
+
+private theorem mergeChi_meta_spec (a b r : FileMeta) (h : FileMeta.mergeChi a b = some r)
+    (hd : FileMeta.dropsChi a b = true) :
+    Meta.get r.data keyChi = none ∧ Meta.get r.data keyFwChiFlag = some valZero := by
+  unfold FileMeta.dropsChi at hd
+  simp only [Bool.and_eq_true, Bool.not_eq_true'] at hd
+  obtain ⟨hne, hchi⟩ := hd
+  unfold FileMeta.mergeChi at h
+  simp only [hne, Bool.false_eq_true, if_false, hchi, if_true] at h
+  split at h
+  · injection h with h; subst h
+    simp only [Meta.get_append]
+    have hf := fun k => Meta.get_filter a.data (fun x => !(keyFwChiFlag :: libSkip).contains x) k
+    constructor
+    · rw [hf keyChi]
+      cases orVal (Meta.get a.data keyLibraryLabel) (Meta.get b.data keyLibraryLabel) <;>
+        simp [Meta.get, oor, libSkip, keyChi, keyLibraryLabel, keyFwChiFlag]
+    · cases orVal (Meta.get a.data keyLibraryLabel) (Meta.get b.data keyLibraryLabel) <;>
+        simp [Meta.get, oor, keyLibraryLabel, keyFwChiFlag]
+  · simp at h
+
+private theorem allOwn_cond (c : Bool) (ns : Nucs) (h : AllOwn ns) : AllOwn (condRewrite c ns) := by
+  unfold condRewrite; cases c
+  · simpa using h
+  · simpa using allOwn_rewrite ns
+
+private theorem finish_spec (t1 : Lib) (mi mp mg : FileMeta) (tn on : Nucs)
+    (h : (Lib.finishMerge t1 mi mp mg tn on).1 = true) :
+    (Lib.finishMerge t1 mi mp mg tn on).2.isoMeta = mi ∧
+      (Lib.finishMerge t1 mi mp mg tn on).2.nucs = (mergeNucs tn on).2 := by
+  unfold Lib.finishMerge at h ⊢
+  by_cases hr : (mergeNucs tn on).1 = true
+  · simp [hr]
+  · simp [hr] at h
+
+private theorem chi3_spec (t1 o : Lib) (mi mp : FileMeta) (tn on : Nucs) (ht : AllOwn tn) (ho : AllOwn on)
+    (h : (Lib.mergeChi3 t1 o mi mp tn on).1 = true) :
+    (Lib.mergeChi3 t1 o mi mp tn on).2.isoMeta = mi ∧ AllOwn (Lib.mergeChi3 t1 o mi mp tn on).2.nucs := by
+  unfold Lib.mergeChi3 at h ⊢
+  cases hg : FileMeta.mergeChi t1.gamMeta o.gamMeta with
+  | none => simp [hg] at h
+  | some mg =>
+    simp only [hg] at h ⊢
+    obtain ⟨f1, f2⟩ := finish_spec _ _ _ _ _ _ h
+    exact ⟨f1, by rw [f2]; exact allOwn_mergeNucs _ _ (allOwn_cond _ _ ht) (allOwn_cond _ _ ho)⟩
+
+private theorem chi2_spec (t1 o : Lib) (mi : FileMeta) (tn on : Nucs) (ht : AllOwn tn) (ho : AllOwn on)
+    (h : (Lib.mergeChi2 t1 o mi tn on).1 = true) :
+    (Lib.mergeChi2 t1 o mi tn on).2.isoMeta = mi ∧ AllOwn (Lib.mergeChi2 t1 o mi tn on).2.nucs := by
+  unfold Lib.mergeChi2 at h ⊢
+  cases hg : FileMeta.mergeChi t1.pmMeta o.pmMeta with
+  | none => simp [hg] at h
+  | some mp =>
+    simp only [hg] at h ⊢
+    exact chi3_spec _ _ _ _ _ _ (allOwn_cond _ _ ht) (allOwn_cond _ _ ho) h
+
+/-- the merged library holds no file-wide chi and every fissile nuclide has its own -/
+def ChiDropped (l : Lib) : Prop :=
+  Meta.get l.isoMeta.data keyChi = none ∧ Meta.get l.isoMeta.data keyFwChiFlag = some valZero ∧
+    ∀ lab n, Nucs.find l.nucs lab = some n → OwnChi n.iso
+
+/-- **Dropping a file-wide chi never leaves a fissile nuclide without a chi of its own**: when an accepted merge drops
+the file-wide chi of the ISOTXS metadata (either library had one), the merged metadata hold no chi and
+`fileWideChiFlag = 0`, and EVERY fissile nuclide of the merged library — from the target, from the other library, or
+merged from both — has `chiFlag = 1`. -/
+theorem mergeChi_fissile_have_own_chi (t o : Lib) (h : (Lib.mergeChi t o).1 = true)
+    (hd : FileMeta.dropsChi t.isoMeta o.isoMeta = true) : ChiDropped (Lib.mergeChi t o).2 := by
+  obtain ⟨e1, _, _⟩ := mergeProperties_metas t o
+  rw [← e1] at hd
+  unfold Lib.mergeChi at h ⊢
+  by_cases hp : (Lib.mergeProperties t o).1 = true
+  · simp only [hp, Bool.not_true, Bool.false_eq_true, if_false] at h ⊢
+    unfold Lib.mergeChi1 at h ⊢
+    cases hi : FileMeta.mergeChi (Lib.mergeProperties t o).2.isoMeta o.isoMeta with
+    | none => simp [hi] at h
+    | some mi =>
+      simp only [hi, hd] at h ⊢
+      obtain ⟨c1, c2⟩ := chi2_spec _ _ _ _ _ (by unfold condRewrite; simpa using allOwn_rewrite _)
+        (by unfold condRewrite; simpa using allOwn_rewrite _) h
+      obtain ⟨m1, m2⟩ := mergeChi_meta_spec _ _ _ hi hd
+      refine ⟨by rw [c1]; exact m1, by rw [c1]; exact m2, ?_⟩
+      intro lab n hn
+      exact c2 (lab, n) (find_mem _ _ _ hn)
+  · simp [hp] at h
+
+private def fwLib (chi : Option Val) (lab : Label) (chiFlag : Val) : Lib :=
+  ⟨none, some (some 7), some (some 8), none, none,
+    ⟨(match chi with | some c => [(keyChi, c), (keyFwChiFlag, valOne)] | none => [(keyFwChiFlag, valZero)]) ++ [(9, 9)], [lab]⟩,
+    ⟨[], []⟩, ⟨[], []⟩,
+    [(lab, ⟨[(keyFisFlag, valOne), (keyChiFlag, chiFlag)], [], [], some [some lab], none, [none, none, none, none, none]⟩)]⟩
+
+/-- two libraries with a file-wide chi each: both fissile nuclides end with chiFlag = 1, the merged header has none -/
+example : (mergeAllChi Lib.empty [fwLib (some 50) 10 valZero, fwLib (some 51) 11 valZero]).1 = [true, true] ∧
+    ((mergeAllChi Lib.empty [fwLib (some 50) 10 valZero, fwLib (some 51) 11 valZero]).2.nucs.map
+      (fun p => Meta.get p.2.iso keyChiFlag)) = [some valOne, some valOne] ∧
+    Meta.get (mergeAllChi Lib.empty [fwLib (some 50) 10 valZero, fwLib (some 51) 11 valZero]).2.isoMeta.data keyChi = none := by
+  decide
+example : FileMeta.dropsChi (fwLib (some 50) 10 valZero).isoMeta (fwLib none 11 valOne).isoMeta = true := by decide
+example : (fwLib none 11 valOne).inDomain = true ∧ (fwLib (some 50) 10 valZero).inDomain = false := by decide
+
+/-! ## continuation round: the theorems' hypotheses as executable checks; chi-free sequences; creator linearity; properties frame -/
+
+private theorem Meta.get_isSome_of_mem : ∀ (m : Meta) (k : Key) (v : Val), (k, v) ∈ m → (Meta.get m k).isSome = true := by
+  intro m
+  induction m with
+  | nil => intro k v h; simp at h
+  | cons p ps ih =>
+    intro k v h
+    obtain ⟨a, b⟩ := p
+    by_cases hk : a = k
+    · simp [Meta.get, hk]
+    · rcases List.mem_cons.mp h with h | h
+      · injection h with h1 _; exact absurd h1.symm hk
+      · simp [Meta.get, hk, ih k v h]
+
+theorem good_of_goodB (a : FileMeta) (h : a.goodB = true) : a.good := by
+  intro hbot
+  unfold FileMeta.goodB at h
+  rcases Bool.or_eq_true_iff.mp h with h | h
+  · simpa [List.isEmpty_iff] using h
+  · obtain ⟨p, hp, hk⟩ := List.any_eq_true.mp h
+    have := congrFun hbot p.1
+    have hs := Meta.get_isSome_of_mem a.data p.1 p.2 hp
+    have hk' : p.1 ∉ libSkip := by simpa using hk
+    simp [FileMeta.ord, hk', KeyFn.bot] at this
+    simp [this] at hs
+
+/-- **the domain of the merge theorems is an executable check** (the driver evaluates `Lib.WFB` on every library the
+harness sends; the harness counts the libraries it holds for) -/
+theorem WF_of_WFB (l : Lib) (h : l.WFB = true) : l.WF := by
+  unfold Lib.WFB at h
+  simp only [Bool.and_eq_true, decide_eq_true_eq] at h
+  obtain ⟨⟨⟨⟨g1, g2⟩, g3⟩, nd⟩, al⟩ := h
+  refine ⟨good_of_goodB _ g1, good_of_goodB _ g2, good_of_goodB _ g3, nd, ?_⟩
+  intro lab n hn
+  have := List.all_eq_true.mp al (lab, n) (find_mem _ _ _ hn)
+  simpa using this
+
+example : gA.WFB = true ∧ gB.WFB = true ∧ Lib.empty.WFB = true := by decide
+
+private theorem chiFree_merge (a b r : FileMeta) (ha : a.chiFree = true) (hb : b.chiFree = true)
+    (h : FileMeta.merge a b = some r) : r.chiFree = true := by
+  unfold FileMeta.chiFree at ha hb ⊢
+  have ha' : Meta.get a.data keyChi = none := by cases h' : Meta.get a.data keyChi <;> simp_all
+  have hb' : Meta.get b.data keyChi = none := by cases h' : Meta.get b.data keyChi <;> simp_all
+  unfold FileMeta.merge at h
+  split at h
+  · injection h with h; subst h
+    simp only [Meta.update, Meta.get_append, hb']
+    have := Meta.get_filter a.data (fun k => (Meta.get b.data k).isNone) keyChi
+    simp only [this, ha']; simp [oor]
+  · split at h
+    · injection h with h; subst h
+      simp only [Meta.get_append]
+      have := Meta.get_filter a.data (fun k => !libSkip.contains k) keyChi
+      rw [this]
+      cases orVal (Meta.get a.data keyLibraryLabel) (Meta.get b.data keyLibraryLabel) <;>
+        simp [Meta.get, oor, libSkip, keyChi, keyLibraryLabel]
+    · simp at h
+
+/-- libraries without a file-wide chi stay without one whatever a merge does -/
+theorem merge_keeps_inDomain (t o : Lib) (ht : t.inDomain = true) (ho : o.inDomain = true) :
+    (Lib.merge t o).2.inDomain = true := by
+  by_cases hm : (Lib.merge t o).1 = true
+  · obtain ⟨e1, e2, e3⟩ := mergeProperties_metas t o
+    simp only [Lib.inDomain, Bool.and_eq_true] at ht ho ⊢
+    obtain ⟨⟨t1, t2⟩, t3⟩ := ht
+    obtain ⟨⟨o1, o2⟩, o3⟩ := ho
+    rw [← e1] at t1; rw [← e2] at t2; rw [← e3] at t3
+    unfold Lib.merge at hm ⊢
+    by_cases hp : (Lib.mergeProperties t o).1 = true
+    · simp only [hp, Bool.not_true, Bool.false_eq_true, if_false] at hm ⊢
+      cases hi : FileMeta.merge (Lib.mergeProperties t o).2.isoMeta o.isoMeta with
+      | none => simp [hi] at hm
+      | some mi =>
+        cases hpm : FileMeta.merge (Lib.mergeProperties t o).2.pmMeta o.pmMeta with
+        | none => simp [hi, hpm] at hm
+        | some mp =>
+          cases hg : FileMeta.merge (Lib.mergeProperties t o).2.gamMeta o.gamMeta with
+          | none => simp [hi, hpm, hg] at hm
+          | some mg =>
+            simp only [hi, hpm, hg] at hm ⊢
+            split at hm
+            · rename_i hrn
+              rw [if_pos hrn]
+              exact ⟨⟨chiFree_merge _ _ _ t1 o1 hi, chiFree_merge _ _ _ t2 o2 hpm⟩, chiFree_merge _ _ _ t3 o3 hg⟩
+            · simp at hm
+    · simp [hp] at hm
+  · have hf : (Lib.merge t o).1 = false := by simpa using hm
+    obtain ⟨e1, e2, e3⟩ := merge_failure_keeps_metadata t o hf
+    simp only [Lib.inDomain, e1, e2, e3] at ht ⊢
+    exact ht
+
+/-- **on chi-free libraries the chi-aware sequence (what the driver runs for the file-wide-chi stream) is the plain
+one**, so every merge theorem of this file speaks about it -/
+theorem mergeAllChi_eq_mergeAll : ∀ (os : List Lib) (t : Lib), t.inDomain = true → (∀ o ∈ os, o.inDomain = true) →
+    mergeAllChi t os = mergeAll t os := by
+  intro os
+  induction os with
+  | nil => intro t _ _; rfl
+  | cons o os ih =>
+    intro t ht ho
+    have e := mergeChi_eq_merge t o ht (ho o (by simp))
+    simp only [mergeAllChi, mergeAll, e]
+    rw [ih _ (merge_keeps_inDomain t o ht (ho o (by simp))) (fun x hx => ho x (by simp [hx]))]
+
+/-! ### the creator's defining sums: zero, linear, additive -/
+
+theorem creator_sum_empty (g : Nat) (lib : List (Nat × MNuc)) (i : Nat) (w : Bool) :
+    specAt g (entriesOf lib i w []) = 0 := by simp [entriesOf, specAt, sumR]
+
+/-- every defining sum of the creator is linear in the densities -/
+theorem creator_sum_linear (g : Nat) (c : Rat) (lib : List (Nat × MNuc)) (i : Nat) (w : Bool) (dens : List (Nat × Rat)) :
+    specAt g (entriesOf lib i w (dens.map (fun p => (p.1, c * p.2)))) = c * specAt g (entriesOf lib i w dens) := by
+  induction dens with
+  | nil => simp [entriesOf, specAt, sumR]
+  | cons p ps ih =>
+    simp only [entriesOf, List.map_cons, specAt_cons] at ih ⊢
+    rw [ih]
+    cases lookupNuc lib p.1 <;> (simp [Entry.contrib]; try ring)
+
+/-- every defining sum of the creator is additive over concatenated nuclide lists -/
+theorem creator_sum_additive (g : Nat) (lib : List (Nat × MNuc)) (i : Nat) (w : Bool) (d₁ d₂ : List (Nat × Rat)) :
+    specAt g (entriesOf lib i w (d₁ ++ d₂)) = specAt g (entriesOf lib i w d₁) + specAt g (entriesOf lib i w d₂) := by
+  unfold entriesOf
+  rw [List.map_append, macro_additive_spec]
+
+/-! ### the write-once properties after a rejected merge -/
+
+private theorem prop_set_frame (cur : Prop') (v : Option Val) (p : Prop') (h : cur.set v = some p) :
+    p.read = cur.read ∨ (cur.read = none ∧ p.read = v) := by
+  cases cur with
+  | none => simp [Prop'.set] at h; subst h; right; exact ⟨rfl, rfl⟩
+  | some c =>
+    cases c with
+    | none => simp [Prop'.set] at h; subst h; right; exact ⟨rfl, rfl⟩
+    | some x =>
+      cases v with
+      | none => simp [Prop'.set] at h; subst h; left; rfl
+      | some y =>
+        simp only [Prop'.set] at h
+        split at h
+        · injection h with h; subst h; left; rfl
+        · simp at h
+
+/-- **the write-once properties after ANY merge attempt**: each of the five (dose factors, neutron / gamma group
+bounds, velocity) reads what it read before, or was unset and now reads the other library's value — a rejected merge
+never replaces a group structure the target already had. -/
+theorem merge_properties_frame (t o : Lib) :
+    let r := (Lib.mergeProperties t o).2
+    (r.ndcf.read = t.ndcf.read ∨ (t.ndcf.read = none ∧ r.ndcf.read = o.ndcf.read)) ∧
+    (r.nEnergy.read = t.nEnergy.read ∨ (t.nEnergy.read = none ∧ r.nEnergy.read = o.nEnergy.read)) ∧
+    (r.nVel.read = t.nVel.read ∨ (t.nVel.read = none ∧ r.nVel.read = o.nVel.read)) ∧
+    (r.gEnergy.read = t.gEnergy.read ∨ (t.gEnergy.read = none ∧ r.gEnergy.read = o.gEnergy.read)) ∧
+    (r.gdcf.read = t.gdcf.read ∨ (t.gdcf.read = none ∧ r.gdcf.read = o.gdcf.read)) := by
+  have vel : ∀ (a b : Prop'), (if a = none then some b.read else a : Prop').read = a.read ∨
+      (a.read = none ∧ (if a = none then some b.read else a : Prop').read = b.read) := by
+    intro a b
+    cases a with
+    | none => right; exact ⟨rfl, by simp [Prop'.read]⟩
+    | some x => left; simp
+  simp only [Lib.mergeProperties]
+  cases h1 : t.ndcf.set o.ndcf.read with
+  | none => simp
+  | some p1 =>
+    have f1 := prop_set_frame _ _ _ h1
+    cases h2 : t.nEnergy.set o.nEnergy.read with
+    | none => simp [f1]
+    | some p2 =>
+      have f2 := prop_set_frame _ _ _ h2
+      cases h4 : t.gEnergy.set o.gEnergy.read with
+      | none => simp [f1, f2]; exact vel t.nVel o.nVel
+      | some p4 =>
+        have f4 := prop_set_frame _ _ _ h4
+        cases h5 : t.gdcf.set o.gdcf.read with
+        | none => simp [f1, f2, f4]; exact vel t.nVel o.nVel
+        | some p5 =>
+          have f5 := prop_set_frame _ _ _ h5
+          simp [f1, f2, f4, f5]; exact vel t.nVel o.nVel
+
+/-! ### a conflict on the first statement that can conflict is atomic -/
+
+private theorem replace_self : ∀ (m : Nucs) (l : Label) (x : Nuc), Nucs.find m l = some x → Nucs.replace m l x = m := by
+  intro m
+  induction m with
+  | nil => intro l x h; rfl
+  | cons p ps ih =>
+    intro l x h
+    obtain ⟨a, b⟩ := p
+    by_cases hk : a = l
+    · simp [Nucs.find, hk] at h; subst h; simp [Nucs.replace, hk]
+    · simp [Nucs.find, hk] at h; simp [Nucs.replace, hk, ih l x h]
+
+/-- **Where rejection IS atomic**: the other library changes no write-once property, and its FIRST nuclide collides
+with a nuclide of the target on the first statement of `XSNuclide.merge` that can mutate (`Nuc.merge tn n = (false, tn)`,
+e.g. differing ISOTXS nuclide metadata — `nuc_merge_meta_conflict_atomic`): the target is exactly what it was.
+(The harness visits this class for every conflict kind: stream "positioned conflict (first)".) -/
+theorem merge_failure_atomic_first_nuclide (t o : Lib) (l : Label) (n tn : Nuc) (rest : Nucs)
+    (ho : o.nucs = (l, n) :: rest) (hf : Nucs.find t.nucs l = some tn)
+    (hp : Lib.mergeProperties t o = (true, t)) (hn : Nuc.merge tn n = (false, tn)) :
+    Lib.merge t o = (false, t) := by
+  have hm : mergeNucs t.nucs o.nucs = (false, t.nucs) := by
+    rw [ho]; simp [mergeNucs, hf, hn, replace_self _ _ _ hf]
+  unfold Lib.merge
+  simp only [hp, Bool.not_true, Bool.false_eq_true, if_false]
+  cases FileMeta.merge t.isoMeta o.isoMeta <;> cases FileMeta.merge t.pmMeta o.pmMeta <;>
+    cases FileMeta.merge t.gamMeta o.gamMeta <;> simp [hm]
+
+/-- differing ISOTXS nuclide metadata: nothing of the target nuclide has been touched when `XSNuclide.merge` raises -/
+theorem nuc_merge_meta_conflict_atomic (x y : Nuc) (h : Meta.merge [] x.iso y.iso = none) : Nuc.merge x y = (false, x) := by
+  simp [Nuc.merge, h]
+
+example : Nuc.merge (nucIso 1) { nucGam 2 with iso := [(5, 7)] } = (false, nucIso 1) := by decide
+
+
+/-! ### the merge with rollback (candidate fix `notes/candidate-fixes-C10/atomic-merge-rollback.diff`) -/
+
+/-- **with the rollback, "rejected ⇒ target unchanged" holds in full**: every rejected merge, whatever raised and
+wherever, returns exactly the target it was given -/
+theorem mergeAtomic_rejected_unchanged (t o : Lib) (h : (Lib.mergeAtomic t o).1 = false) : (Lib.mergeAtomic t o).2 = t := by
+  unfold Lib.mergeAtomic at h ⊢
+  by_cases hr : (Lib.mergeChi t o).1 = true
+  · simp [hr] at h
+  · simp [hr]
+
+/-- the rollback changes nothing about acceptance, nor about what an accepted merge produces -/
+theorem mergeAtomic_accepted (t o : Lib) :
+    (Lib.mergeAtomic t o).1 = (Lib.mergeChi t o).1 ∧
+    ((Lib.mergeChi t o).1 = true → Lib.mergeAtomic t o = Lib.mergeChi t o) := by
+  unfold Lib.mergeAtomic
+  by_cases hr : (Lib.mergeChi t o).1 = true
+  · simp [hr]
+  · simp [hr]
+
+/-- on libraries without a file-wide chi an accepted merge with rollback is the `Lib.merge` of every theorem above -/
+theorem mergeAtomic_eq_merge (t o : Lib) (ht : t.inDomain = true) (ho : o.inDomain = true)
+    (h : (Lib.merge t o).1 = true) : Lib.mergeAtomic t o = Lib.merge t o := by
+  have e := mergeChi_eq_merge t o ht ho
+  rw [← e] at h
+  rw [(mergeAtomic_accepted t o).2 h, e]
+
+/-- a sequence of merges with rollback ends in the state reached by the ACCEPTED libraries alone: rejected ones leave
+no trace -/
+theorem mergeAllAtomic_skips_rejected : ∀ (os : List Lib) (t : Lib),
+    (mergeAllAtomic t os).2
+      = (mergeAllAtomic t ((os.zip (mergeAllAtomic t os).1).filter (fun p => p.2) |>.map Prod.fst)).2 := by
+  intro os
+  induction os with
+  | nil => intro t; rfl
+  | cons o os ih =>
+    intro t
+    by_cases hr : (Lib.mergeAtomic t o).1 = true
+    · simp only [mergeAllAtomic, List.zip_cons_cons, hr, List.filter_cons_of_pos, List.map_cons]
+      exact ih _
+    · have hf : (Lib.mergeAtomic t o).1 = false := by simpa using hr
+      have e := mergeAtomic_rejected_unchanged t o hf
+      simp only [mergeAllAtomic, List.zip_cons_cons, hf, Bool.false_eq_true, not_false_eq_true, List.filter_cons_of_neg, e]
+      exact ih t
+
+example : (mergeAllAtomic Lib.empty [gA, gA, gC]).1 = [true, false, true] ∧
+    (mergeAllAtomic Lib.empty [gA, gA, gC]).2 = (mergeAllAtomic Lib.empty [gA, gC]).2 := by decide
 
 end ArmiVerif.XsLib
